@@ -448,12 +448,14 @@ var dfsPrograms = [][][]ccall{
 	{{sl(-1), wf("a:1")}, {wf("b:1"), sl(2)}},
 	{{wf("a:1"), wf("a:2")}, {wf("b:1")}, {sl(0)}},
 	{{wf("a:1")}, {wf()}, {sl(-1), sl(2)}},
+	{{wf("a:1"), sl(0)}, {wf("b:1"), wf("c:1")}, {sl(-1), wf("d:1")}},
+	{{wf("a:1")}, {wf("b:1")}, {wf("c:1")}, {sl(2)}},
 }
 
 func runConc(r *hx.Runner, f *hx.Flags) {
-	nprog, nsched, bound, limit := r.N(500), 6, 2, 4000
+	nprog, nsched, bound, limit := r.N(2000), 8, 3, 20000
 	if f.Tier == "thorough" {
-		nprog, nsched, bound, limit = r.N(12000), 12, 3, 300000
+		nprog, nsched, bound, limit = r.N(40000), 12, 4, 400000
 	}
 	for i := 0; i < nprog; i++ {
 		progs := genProgs(r.Rng)
